@@ -1,6 +1,8 @@
 import ApolloModel.Proofs.AstDocument3
 import ApolloModel.Proofs.AstText7
 import ApolloModel.Proofs.AstText8
+import ApolloModel.Proofs.AstText12
+import ApolloModel.Proofs.AstParseWf
 /-
 C08 — AST serialization round-trips.
 
@@ -182,6 +184,53 @@ theorem text_lexes_back_ints (pre : Option Str) (level : Nat) (doc : Document)
       = some (toksOf (cDocument (outputEmptyAtStart pre level) doc)) :=
   text_lexes_back pre level doc hpre hn (numbersLex_doc pre level doc hint hfl) hstr
 
+/-! ### all token kinds (numbers via C03's completeness theorems, strings via C09's round trip + the block DFA) -/
+
+/-- IntValue and FloatValue texts (the grammar's, `Spec/Lexical.lean`), on their own, lex back to their token -/
+theorem number_lex_back (t : Str) :
+    (Apollo.Spec.Lexical.IsIntValue t → TokOk (.int t) t) ∧ (Apollo.Spec.Lexical.IsFloatValue t → TokOk (.float t) t) :=
+  ⟨tokOk_int_spec t, tokOk_float_spec t⟩
+
+/-- Every string literal the serializer writes — quoted form, single-line and multi-line block form, value or
+    description, any white-space indentation prefix, any level — is read by the lexer model as ONE StringValue
+    token that is exactly the printed text, whatever follows it (other than a quote), and that token decodes to
+    the string.  (Block form: `escapeTriple` never lets the block-string states close, `brun_escapeTriple`.) -/
+theorem string_lex_back (p : Option Str) (n : Nat) (isDescription : Bool) (s : Str)
+    (hp : ∀ pre, p = some pre → pre.all Apollo.Strs.isWs = true) :
+    TokOk (.str s) (Apollo.Strs.serializeStringValue p n isDescription s) := tokOk_string p n isDescription s hp
+
+/-- **The text lexes back to the tokens — no hypothesis about numbers or strings left.**  For every white-space
+    indentation prefix (or none), every level and every document whose names, IntValues and FloatValues have
+    the grammar's syntax, the lexer model reads the printed text as exactly `toksOf`. -/
+theorem text_lexes_back_full (pre : Option Str) (level : Nat) (doc : Document)
+    (hpre : ∀ p, pre = some p → p.all Apollo.Strs.isWs = true)
+    (hn : NamesWf (docSegs pre level doc)) (hi : IntsSpec (docSegs pre level doc))
+    (hf : FloatsSpec (docSegs pre level doc)) :
+    sigToks (Apollo.Lex.lex none (serializeDocument pre level doc).out)
+      = some (toksOf (cDocument (outputEmptyAtStart pre level) doc)) := by
+  obtain ⟨hout, htoks, ⟨e, hscan⟩, _⟩ := text_segmentation pre level doc
+  have hign : ∀ p, pre = some p → strIgnored p = true := fun p hp => ws_ignored p (hpre p hp)
+  rw [hout, ← htoks]
+  exact lex_segments _ _ none e (segsWf_doc_full pre level doc hpre hn hi hf)
+    (initialIndent_ignored pre level hign) hscan
+
+/-- **parse_wf**: whatever the reference parser returns is non-empty and satisfies `wfDefinitions`. -/
+theorem parse_wf (f : Nat) (ts : List Tok) (d : Document) (h : pDocument f ts = some d) :
+    d ≠ [] ∧ wfDefinitions d = true := Apollo.Ast.parse_wf f ts d h
+
+/-- **End to end, for documents that come from a parse.**  If the reference parser read `d` from some token
+    stream, then for every white-space indentation setting: printing `d`, lexing the text with the lexer model
+    and parsing the tokens gives `d` back.  Remaining hypotheses: the names, IntValues and FloatValues in `d`
+    have the grammar's syntax (true of lexer tokens by C03 `advance_token_sound`; not yet carried through the
+    parser in Lean). -/
+theorem reparse_roundtrip (f : Nat) (ts : List Tok) (d : Document) (hparse : pDocument f ts = some d)
+    (pre : Option Str) (level : Nat) (hpre : ∀ p, pre = some p → p.all Apollo.Strs.isWs = true)
+    (hn : NamesWf (docSegs pre level d)) (hi : IntsSpec (docSegs pre level d)) (hf : FloatsSpec (docSegs pre level d)) :
+    (sigToks (Apollo.Lex.lex none (serializeDocument pre level d).out)).bind (pDocument (szDefinitions d)) = some d := by
+  obtain ⟨hne, hwf⟩ := Apollo.Ast.parse_wf f ts d hparse
+  rw [text_lexes_back_full pre level d hpre hn hi hf]
+  exact document_print_parse pre level d hne hwf
+
 /-- the hypotheses of `text_lexes_back` are satisfiable: `query Q { a { ...F } b: c }  fragment F on T { a }`
     printed with two-space indentation at level 1 and on a single line -/
 def exampleDoc : Document :=
@@ -199,5 +248,20 @@ example : sigToks (Apollo.Lex.lex none (serializeDocument none 0 exampleDoc).out
     = some (toksOf (cDocument (outputEmptyAtStart none 0) exampleDoc)) := by
   have h := plain_hyps (docSegs none 0 exampleDoc) (by decide)
   exact text_lexes_back _ _ _ (by intro p hp; cases hp) h.1 h.2.1 h.2.2
+
+/-- `text_lexes_back_full` on a document with a multi-line block description, a one-line block description, a
+    quoted string with escapes and an empty string, printed with a two-space prefix at level 1:
+    `"""a\n b""" type T { "d" f(x: String = "q\"\\", y: String = ""): T }` -/
+def exampleDoc2 : Document :=
+  [.objectDef (some "a\n b".toList) "T".toList [] []
+     [{ desc := some "d".toList, name := "f".toList,
+        args := [{ desc := none, name := "x".toList, ty := .named "String".toList, default := some (.str "q\"\\".toList), dirs := [] },
+                 { desc := none, name := "y".toList, ty := .named "String".toList, default := some (.str []), dirs := [] }],
+        ty := .named "T".toList, dirs := [] }]]
+
+example : sigToks (Apollo.Lex.lex none (serializeDocument (some "  ".toList) 1 exampleDoc2).out)
+    = some (toksOf (cDocument (outputEmptyAtStart (some "  ".toList) 1) exampleDoc2)) := by
+  have h := noNumbers_hyps (docSegs (some "  ".toList) 1 exampleDoc2) (by decide)
+  exact text_lexes_back_full _ _ _ (by intro p hp; cases hp; decide) h.1 h.2.1 h.2.2
 
 end Apollo.C08
